@@ -115,11 +115,20 @@ static size_t parse_hex(const char *s, uint8_t *out, size_t cap) {
     return n;
 }
 
+/* keys 0..65535 stand for 02:4B:00:00:hh:ll; keys 65536.. for addresses that are not ordinary station addresses
+ * (a session key is whatever the frame's real-source field held) */
+static const uint8_t special_macs[][6] = {
+    {0xFF, 0xFF, 0xFF, 0xFF, 0xFF, 0xFF}, {0, 0, 0, 0, 0, 0}, {0x01, 0x00, 0x5E, 0x00, 0x00, 0x01}, {0x03, 0x4B, 0x00, 0x00, 0x00, 0x01},
+    {0x33, 0x33, 0x00, 0x00, 0x00, 0x01}, {0x02, 0x4B, 0x01, 0x00, 0x00, 0x01}, {0x02, 0x4B, 0x00, 0x01, 0x00, 0x00}, {0xFE, 0xFF, 0xFF, 0xFF, 0xFF, 0xFF},
+};
+#define N_SPECIAL ((long)(sizeof special_macs / sizeof special_macs[0]))
 static void mac_of_key(long key, uint8_t m[6]) {
+    if (key >= 65536 && key < 65536 + N_SPECIAL) { memcpy(m, special_macs[key - 65536], 6); return; }
     m[0] = 0x02; m[1] = 0x4B; m[2] = 0; m[3] = 0; m[4] = (uint8_t)(key >> 8); m[5] = (uint8_t)key;
 }
 static long key_of_mac(const uint8_t m[6]) {
     if (m[0] == 0x02 && m[1] == 0x4B && m[2] == 0 && m[3] == 0) return ((long)m[4] << 8) | m[5];
+    for (long i = 0; i < N_SPECIAL; i++) if (!memcmp(m, special_macs[i], 6)) return 65536 + i;
     return 100000 + (((long)m[2] << 24 | (long)m[3] << 16 | (long)m[4] << 8 | m[5]) & 0x3FFFFFF);
 }
 
